@@ -104,7 +104,7 @@ PROPS["C08"] = dict(
          "by a fake-clock jump of 29-300 s, sometimes with tiny memory limits; schedule points between the two locked sections of Process; non-trivial = at "
          "least 3 fragments injected and at least one datagram handed up; distinct = distinct hash of schedule and delivery history",
     expected_probes=["delivered", "clock_jump", "memory_pressure", "delivered_twice_from_duplicates", "datagrams_reassembled", "near_key_pairs",
-                     "fragments_with_link_padding", "overlapping_fragments", "reassembled_again_from_duplicates", "whole_datagrams", "clock_advances"],
+                     "fragments_with_link_padding", "overlapping_fragments", "reassembled_again_from_duplicates", "whole_datagrams", "clock_advances", "fragments_carrying_df"],
     real=["protocol/network/fragmentation (fragmentation.go, reassembler.go, frag_heap.go, reassembler_list.go)", "pkg/buffer (VectorisedView clone/trim)",
           "netsim:reasm variant: protocol/network/ipv4 (HandlePacket), protocol/network/hash, stack (nic.go), protocol/transport/udp, ipv4 ICMP echo"],
     stubs=PRIM_STUBS + ["wall clock: testing/synctest fake clock (reassembly timeout)"],
@@ -112,7 +112,8 @@ PROPS["C08"] = dict(
                                "half (variant netsim:reasm) send IPv4 fragments of UDP datagrams and echo requests through the link layer of one real stack: "
                                "pairs of datagrams whose reassembly keys differ in exactly one of source (also only in the last octet), destination, protocol "
                                "and identification, all fragments interleaved in one instant (both must come out intact, exactly as sent, at the right socket "
-                               "from the right sender), random 8-byte-aligned cuts into 2-6 fragments, duplicates, overlapping pieces of a second cut, 1-26 "
+                               "from the right sender), random 8-byte-aligned cuts into 2-6 (one in five: 16-40) fragments, a fifth of the datagrams with the "
+                               "don't-fragment bit copied into every fragment, duplicates, overlapping pieces of a second cut, 1-26 "
                                "bytes of link-layer padding behind the IP total length, slow datagrams whose fragments are spread over clock advances of "
                                "1-40 s around the 30 s timeout; a delivery must be covered by fragments received after the datagram's previous delivery and "
                                "no longer than the timeout ago; a key is reused only after it has been idle for longer than the timeout",
@@ -368,18 +369,22 @@ PROPS["C09"] = dict(
          "connected), TCP listeners (wildcard/specific), TCP connections created by real handshakes with the scripted peer (a SYN whose best match is an "
          "open listener must draw SYN|ACK), endpoints registered directly with the demultiplexer in all four binding shapes on a port of their own (so "
          "wildcard and specific bindings of one port coexist, which the port manager forbids for sockets), closes in any order, close-and-reopen of the "
-         "same binding with no settling in between (the closed listener's goroutine is still winding down), interleaved with UDP datagrams and in-window TCP data segments on either NIC whose 4-tuples are aimed at, or one coordinate "
+         "same binding with no settling in between (the closed listener's goroutine is still winding down), a close racing with a delivery already handed to "
+         "the stack (the closed socket must end up empty), removal and re-assignment of an address, interleaved with UDP datagrams and in-window TCP data segments on either NIC whose 4-tuples are aimed at, or one coordinate "
          "beside, an open socket; after every packet every open socket is read; non-trivial = at least one packet reached its socket; distinct = "
          "distinct event-log hash",
     expected_probes=["delivered_to_winner", "to_address_not_owned", "tcp_no_match_reset", "tcp_connections", "segment_for_closing_connection",
                      "closed_and_reopened_at_once", "directly_registered_endpoints", "sockets_bound_to_an_interface",
-                     "sockets_connected_through_an_interface", "wildcard_bound_then_connected"],
+                     "sockets_connected_through_an_interface", "wildcard_bound_then_connected", "address_removed", "address_added_again",
+                     "close_racing_with_delivery", "dual_stack_sockets"],
     real=NET_REAL, stubs=NET_STUBS + PEER_STUB, assumptions=NET_ASSUME + [
         "a TCP connection the application has closed still occupies its 4-tuple while its closing exchange runs; what answers a segment for it is not asserted",
         "a socket tied to an interface (bound or connected with an explicit NIC) matches only packets arriving on that interface",
         "whether a UDP socket bound to the wildcard address and then connected still hears its peer on the other local addresses is not asserted "
         "(both readings of 'its addresses' are defensible); such packets are injected but not judged",
-        "addresses are not added or removed while sockets are open"],
+        "one address of NIC 1 is removed and assigned again during the run (not in promiscuous/subnet configurations); while a connected UDP socket or a "
+        "TCP connection that used it at removal time is still around, the stack documents that the address lingers: packets for it are then injected "
+        "but not judged; once those users are gone it must stop receiving, and binding to it is judged only in that state"],
     hang_is_violation=True,
     level_text="seeded search over socket sets and inbound 4-tuples against a reference function written from the statement (destination address owned by "
                "the receiving interface, or promiscuous/subnet; then connected before bound, specific local address before wildcard): exactly the winner "
